@@ -19,13 +19,21 @@ PROP = "C19"
 IMPORTS = ("From JV Require Import Lib.Base Model.C19PathMode Model.C19Cwd Spec.C19Spec Spec.C19CwdSpec "
            "Spec.C19Guard Corr.C19Judge.")
 RULE = ("mode cases: every valid local mode of <=4 flags (thorough: all 2304 valid flag multisets, in a seeded flag "
-        "order) x 45 path kinds (regular/dir/fifo with permission variants, symlinks, dangling symlink, missing "
-        "with/without parent, below a regular file, below an unsearchable directory, read-only parent, /dev/null, /, "
-        "~, ~/x, ., .., '', '-', trailing slash, a/../b) x {absolute, relative, ./relative} x 3 working directories, "
-        "run as uid nobody (permission bits effective) and a seeded quarter also as the invoking user, half of the calls "
-        "as Path(p, mode=m) and half through the registered type path_type(m)(p); plus every "
+        "order) x 49 path kinds (quick: a seeded 20 of them per mode; regular/dir/fifo with permission variants, symlinks, "
+        "dangling symlink, missing with/without parent, below a regular file, below an unsearchable directory, read-only / "
+        "write-only / search-only parent, /dev/null, /, ~, ~/x, ., .., '', '-', trailing slash, a/../b, a NUL character in "
+        "the spelling) x {absolute, relative, ./relative} x 3 working directories, "
+        "run as uid nobody (permission bits effective) and a seeded quarter (thorough: half) also as the invoking user; the call is "
+        "Path(p, mode=m) (35%), the registered type path_type(m)(p) (35%), or a Path made from a Path - Path(Path(p, ''), m) / "
+        "path_type(m)(Path(p, '')) with the outer call made after the process moved to another directory (30%); .cwd is "
+        "observed next to .relative/.absolute; plus every "
         "string of <=2 characters over the flag alphabet + 2 foreign characters and seeded longer strings as "
-        "(mostly invalid) modes. cwd cases: seeded config trees (nested files in 7 directories + 5 symbolic links to "
+        "(mostly invalid) modes, and 7 modes that are not strings (None, int, list, tuple, bytes, set, dict). cwd cases: "
+        "half of the --cfg / default_config_files / get_defaults cases load 2-3 config files ONE AFTER THE OTHER (in "
+        "different directories, overlapping keys; default files may be missing, blank or undecodable); arguments: a "
+        "dataclass group with a nested dataclass, Optional[path], Optional[List[path]] and Optional[Dict[str, path]] with "
+        "enable_path (value inline, as a line-per-path list file, as a sub-config file holding a sequence resp. a mapping), "
+        "and a nargs='+' path argument; seeded config trees (nested files in 7 directories + 5 symbolic links to "
         "directories at other depths, relative/absolute/detour spellings, a quarter of them through a link, some with "
         "'..' after a link, ~30% of the config and list files referred to through a symbolic link to the file lying in "
         "another directory, sub-config files whose content is a JSON/YAML SEQUENCE of paths (List[path] with enable_path), list files loadable and not loadable as YAML, missing/malformed files and broken values as failure "
@@ -53,6 +61,12 @@ ASSUMPTIONS = [
     "os.chdir(d) fails exactly when d is not one of the fixture's physical directories (all are accessible to the "
     "observing user); no handler of jsonargparse catches the resulting OSError",
     "'~name' spellings and file:// prefixes are not generated",
+    "several config files one after the other: 'a later file overrides an earlier one key by key, a list / dict value as a "
+    "whole' (what merge_config does) is taken as the reference for WHICH values survive; C19 judges where each surviving "
+    "value was resolved. default_config_files are literal names (no wildcards; glob's ordering of matches is not "
+    "exercised); a missing default config file is a name that does not exist at all (a DANGLING symbolic link is kept by "
+    "glob, Path(v, 'fr') then raises inside `with suppress(TypeError)` and _get_default_config_files silently returns NO "
+    "default config file at all - not generated, not modelled)",
     "no other thread changes the process working directory during a load",
     "list files (List[path] given as a file) have >= 2 lines and their folded content is not itself an existing path; "
     "a list file is not loadable as YAML exactly when its first line starts with '@' (the only such lines generated)",
@@ -98,6 +112,7 @@ KINDS = [
     "missing_deep", "through_file", "through_file_deep", "through_fifo", "in_ro", "missing_in_ro", "missing_deep_ro",
     "in_dir_none", "missing_in_dir_none", "missing_below_dir_none", "dir_slash", "file_slash", "via_dotdot",
     "missing_slash",
+    "missing_in_dir_wo", "missing_in_dir_xo", "nul", "nul_dir",
     "devnull", "root", "home", "home_slash", "home_file", "home_missing", "home_deep", "dot", "dotdot", "empty", "dash",
 ]
 
@@ -123,20 +138,29 @@ def valid_flag_multisets(max_flags):
     return out
 
 
+VIAS = ["path"] * 7 + ["type"] * 7 + ["repath"] * 4 + ["retype"] * 2
+MODE_OBJS = ["none", "int", "list", "tuple", "bytes", "set", "dict"]
+
+
 def gen_mode_cases(rng, tier):
     cases = []
     modes = valid_flag_multisets(4 if tier == "quick" else 12)
     for m in modes:
-        for k in KINDS:
+        # quick: a seeded 20 of the 49 path kinds per mode (every kind still meets ~240 modes per run); thorough: all
+        for k in (sorted(rng.sample(KINDS, 20), key=KINDS.index) if tier == "quick" else KINDS):
             l = list(m)
             rng.shuffle(l)  # the code must not depend on the order of the flags
             base = {"k": "mode", "mode": "".join(l), "kind": k,
                     "spell": rng.choice(["abs", "rel", "dotrel"]), "cwd": rng.choice(["w", "wd", "ro"]),
-                    # half of the calls go through the registered path type: path_type(mode)(given)
-                    "via": rng.choice(["path", "type"])}
+                    # Path(given, mode) | the registered path type path_type(mode)(given) | a Path made from a Path
+                    # (Path(Path(given, ""), mode) resp. path_type(mode)(Path(given, "")), the outer one built after the
+                    # process moved to another directory)
+                    "via": rng.choice(VIAS)}
+            if k.startswith("nul"):
+                base["via"] = rng.choice(["path", "type"])
             if CAN_DROP:
                 cases.append(dict(base, uid="nobody"))
-                if tier == "thorough" or rng.random() < 0.25:
+                if rng.random() < (0.5 if tier == "thorough" else 0.25):
                     cases.append(dict(base, uid="root"))
             else:
                 cases.append(dict(base, uid="root"))
@@ -152,7 +176,12 @@ def gen_mode_cases(rng, tier):
         # u/s modes are outside the statement for real paths: with "-" only the mode language is exercised
         kind = "dash" if ("u" in s or "s" in s) else rng.choice(["file", "dir", "missing", "fifo"])
         cases.append({"k": "mode", "mode": s, "kind": kind, "spell": "rel", "cwd": "w", "uid": "root",
-                      "via": rng.choice(["path", "type"])})
+                      "via": rng.choice(VIAS)})
+    # modes that are not strings at all (first statement of _check_mode)
+    for o in MODE_OBJS:
+        for via in ("path", "type"):
+            cases.append({"k": "mode", "mode": "", "mode_obj": o, "kind": rng.choice(["file", "dir", "missing"]),
+                          "spell": "rel", "cwd": "w", "uid": "root", "via": via})
     return cases
 
 
@@ -296,6 +325,27 @@ def gen_cwd_case(rng, tier):
         rng.shuffle(body)
         return body
 
+    def dct_node(here):
+        """--dct: Optional[Dict[str, Path_fr]] with enable_path: inline mapping, or a sub-config FILE holding a mapping
+        (the loader then leaves a __path__ meta in the value: _check_type's path_meta branch)"""
+        n = rng.randint(1, 3)
+        if rng.random() < 0.5:
+            at, ref, d = place(rng.choice(DIRS), "dct", rng.choice(["yaml", "json"]))
+            items = [path_node("dct", d) for _ in range(n)]
+            items = [i["given"] for i in items if i["t"] == "path"] or ["missing.txt"]
+            missing = rng.random() < pfail
+            return {"t": "dctfile", "key": "dct", "given": rel_spelling(rng, ref, here), "at": None if missing else at,
+                    "items": items}
+        items = [path_node("dct", here) for _ in range(n)]
+        return {"t": "dctinline", "key": "dct", "items": [i["given"] for i in items if i["t"] == "path"] or ["missing.txt"]}
+
+    def many_node(here):
+        """--many: nargs='+' of Path_fr: _check_type runs its loop once per element"""
+        if rng.random() < pfail:
+            return {"t": "bad", "key": "many", "value": {"a": "data.txt"}}   # a mapping where a list is expected
+        items = [path_node("many", here) for _ in range(rng.randint(1, 3))]
+        return {"t": "many", "key": "many", "items": [i["given"] for i in items if i["t"] == "path"] or ["missing.txt"]}
+
     def top_body(here):
         body = []
         if rng.random() < 0.6:
@@ -304,23 +354,48 @@ def gen_cwd_case(rng, tier):
             body.append(list_node("lst", here, True))
         if rng.random() < 0.85:
             body.append(nested("mid", here, mid_body))
+        if rng.random() < 0.3:
+            body.append(dct_node(here))
+        if rng.random() < 0.25:
+            body.append(many_node(here))
         rng.shuffle(body)
         return body
 
     entry = rng.choice(["args", "args", "path", "default", "defaults_only", "argmid", "argmid_eq"])
     start = rng.choice(DIRS)
+    common = {"k": "cwd", "entry": entry, "start": start, "dirs": DIRS, "files": files + [d + "/@at.txt" for d in at_dirs],
+              "links": LINKS, "file_links": file_links}
+    if entry in ("args", "default", "defaults_only") and rng.random() < 0.5:
+        # SEVERAL config files one after the other: --cfg f1 --cfg f2 [--cfg f3] resp. default_config_files = [f1, f2, f3],
+        # in different directories, with overlapping keys (a later file overrides an earlier one key by key; what it does
+        # not mention stays resolved against the EARLIER file's directory). Default config files may also be missing
+        # (skipped by glob), blank (skipped) or undecodable (the load fails before any directory is entered).
+        tops = []
+        for _ in range(rng.choice([2, 2, 3])):
+            kind, r = "normal", rng.random()
+            if entry != "args":
+                kind = "normal" if r < 0.72 else ("empty" if r < 0.83 else ("missing" if r < 0.95 else "binary"))
+            if kind == "missing":
+                d = rng.choice(DIRS)
+                at = ref = fresh(d, "top", "yaml")
+            else:
+                at, ref, d = place(rng.choice(DIRS), "top", "yaml")
+            tops.append({"given": rel_spelling(rng, ref, start), "at": None if kind == "missing" else at, "kind": kind,
+                         "tree": top_body(d) if kind == "normal" else []})
+        if entry == "args" and rng.random() < pfail / 2:
+            tops[rng.randrange(len(tops))]["at"] = None
+        return dict(common, tops=tops)
     at, ref, topdir = place(rng.choice(DIRS), "top", "yaml")
     tree = mid_body(topdir) if entry.startswith("argmid") else top_body(topdir)
     top = {"given": rel_spelling(rng, ref, start), "at": at, "wellformed": True}
     if entry not in ("default", "defaults_only") and rng.random() < pfail / 2:
         top["at"] = None
-    return {"k": "cwd", "entry": entry, "start": start, "dirs": DIRS, "files": files + [d + "/@at.txt" for d in at_dirs],
-            "links": LINKS, "file_links": file_links, "top": top, "tree": tree}
+    return dict(common, top=top, tree=tree)
 
 
 def generate(rng, tier):
     cases = gen_mode_cases(rng, tier)
-    for _ in range(320 if tier == "quick" else 4000):
+    for _ in range(400 if tier == "quick" else 4000):
         cases.append(gen_cwd_case(rng, tier))
     return cases
 
@@ -358,9 +433,20 @@ def g_facts(f):
 def key_ids(case):
     """dotted key of every path value of the tree, in traversal order -> id; and the Gallina body"""
     ids = {}
+    units = {}
+    seq = "tops" in case
 
     def fresh(key):
-        ids[key] = len(ids) + 1
+        if not seq:
+            ids[key] = len(ids) + 1
+            return ids[key]
+        # several files: the same key denotes the same value in every file; id = 8 * (number of the key) + position
+        # inside a list / dict value (Model.C19Cwd.merge_items: id / 8 is what a later file overrides)
+        m = re.match(r"^(.*)\[(\d+)\]$", key)
+        unit, idx = (m.group(1), int(m.group(2))) if m else (key, 0)
+        assert idx < 8
+        u = units.setdefault(unit, len(units) + 1)
+        ids[key] = 8 * u + idx
         return ids[key]
 
     def nodes(ns, prefix):
@@ -381,7 +467,14 @@ def key_ids(case):
                 if not n.get("wellformed", True):
                     body = g_list(["NBad"], "node")
                 out.append("NLoad %s %s" % (g_str(n["given"]), body))
-            elif t == "seqfile":
+            elif t == "many":
+                # nargs='+': one turn of _check_type's loop per element, each inside change_to_path_dir(None)
+                for i, g in enumerate(n["items"]):
+                    out.append("NPath %s %s" % (g_nat(fresh("%s[%d]" % (key, i))), g_str(g)))
+            elif t == "dctinline":
+                items = ["NPath %s %s" % (g_nat(fresh("%s[%d]" % (key, i))), g_str(g)) for i, g in enumerate(n["items"])]
+                out.append("NInline %s" % g_list(items, "node"))
+            elif t in ("seqfile", "dctfile"):
                 # same shape as a nested config file: the file is entered, every item is adapted there
                 items = ["(NPath %s %s)" % (g_nat(fresh("%s[%d]" % (key, i))), g_str(g)) for i, g in enumerate(n["items"])]
                 out.append("NLoad %s %s" % (g_str(n["given"]), g_list(items, "node")))
@@ -393,6 +486,8 @@ def key_ids(case):
                 out.append("NListFile %s %s %s" % (g_bool(yaml_ok), g_str(n["given"]), g_list(items, "node")))
         return g_list(["(%s)" % x for x in out], "node")
 
+    if seq:
+        return ids, [nodes(t["tree"], "") for t in case["tops"]]
     body = nodes(case["tree"], "mid." if case["entry"].startswith("argmid") else "")
     return ids, body
 
@@ -401,9 +496,11 @@ def term(case, obs):
     if case["k"] == "mode":
         o = obs["obs"]
         if "ok" in o:
-            go = "(MAccept %s %s)" % (g_str(o["ok"][0]), g_str(o["ok"][1]))
+            go = "(MAccept %s %s %s)" % (g_str(o["ok"][0]), g_str(o["ok"][1]), g_str(o["ok"][2]))
         else:
             go = {"path": "MPathErr", "value": "MValErr", "os": "MOsErr"}.get(o["err"], "MOther")
+        if "mode_obj" in case:
+            return "CModeNonStr %s" % go
         return "CMode %s %s %s %s %s %s" % (g_str(case["mode"]), g_facts(obs["facts"]), g_str(obs["home"]),
                                             g_str(obs["cwd"]), g_str(obs["given"]), go)
     ids, body = key_ids(case)
@@ -421,6 +518,17 @@ def term(case, obs):
         go = "COsErr"
     else:
         go = "COther"
+    if "tops" in case:
+        tops = []
+        for t, b in zip(case["tops"], body):
+            content = {"normal": "(DBody %s)" % b, "empty": "DEmpty", "binary": "DUnreadable", "missing": "(DBody [])"}[t["kind"]]
+            tops.append("(%s, %s)" % (g_str(t["given"]), content))
+        return "CSeq %s %s %s %s %s %s %s %s %s" % (
+            g_bool(case["entry"] != "args"),
+            g_list([g_str(f) for f in obs["files"]], "str"), g_list([g_str(f) for f in obs.get("dirs", [])], "str"),
+            g_list(["(%s, %s)" % (g_str(a), g_str(b)) for a, b in obs.get("links", [])], "(str * str)"), g_str(obs["cwd_before"]),
+            g_list(tops, "(str * dcontent)"),
+            g_str(obs["cwd_after"]), g_opt(g_str(obs["cpd_after"]) if obs["cpd_after"] is not None else None), go)
     return "CCwd %s %s %s %s %s %s %s %s %s" % (
         g_list([g_str(f) for f in obs["files"]], "str"), g_list([g_str(f) for f in obs.get("dirs", [])], "str"),
         g_list(["(%s, %s)" % (g_str(a), g_str(b)) for a, b in obs.get("links", [])], "(str * str)"), g_str(obs["cwd_before"]), g_str(case["top"]["given"]), body,
@@ -442,33 +550,52 @@ def _depth(ns):
     for n in ns:
         if n["t"] in ("load", "inline"):
             d = max(d, (1 if n["t"] == "load" else 0) + _depth(n["body"]))
-        elif n["t"] in ("listfile", "seqfile"):
+        elif n["t"] in ("listfile", "seqfile", "dctfile"):
             d = max(d, 1)
     return d
 
 
+def _trees(case):
+    return [t["tree"] for t in case["tops"]] if "tops" in case else [case["tree"]]
+
+
 def nontrivial_key(case, obs):
     if case["k"] == "mode":
+        if "mode_obj" in case:
+            return repr(("mo", case["mode_obj"], case.get("via"), _outcome(obs)))
         if not case["mode"]:
             return None
         f = obs["facts"]
         return repr(("m", "".join(sorted(case["mode"])), tuple(sorted(f.items())), case["kind"] == "dash", _outcome(obs)))
-    if not case["tree"]:
+    if not any(_trees(case)):
         return None
-    return repr(("c", case["entry"], case["start"], case["top"], case["tree"], _outcome(obs)))
+    return repr(("c", case["entry"], case["start"], case.get("top"), case.get("tree"), case.get("tops"), _outcome(obs)))
 
 
 def category(case, obs):
     if case["k"] == "mode":
         return "mode/%d flags/%s/%s" % (min(len(case["mode"]), 5), case["uid"], _outcome(obs))
+    if "tops" in case:
+        return "cwd/%s/%d files in sequence/nested %d deep/%s" % (
+            case["entry"], len(case["tops"]), 1 + max(_depth(t) for t in _trees(case)), _outcome(obs))
     return "cwd/%s/files nested %d deep/%s" % (case["entry"], 1 + _depth(case["tree"]), _outcome(obs))
 
 
 def describe(case, obs):
     if case["k"] == "mode":
-        call = "path_type(%r)(%r)" % (case["mode"], obs["given"]) if case.get("via") == "type" else "Path(%r, mode=%r)" % (obs["given"], case["mode"])
+        via, m = case.get("via"), case["mode"]
+        if "mode_obj" in case:
+            m = {"none": None, "int": 5, "list": ["f", "r"], "tuple": ("d",), "bytes": b"fr", "set": {"f"}, "dict": {"f": 1}}[case["mode_obj"]]
+        call = {"type": "path_type(%r)(%r)" % (m, obs["given"]),
+                "repath": "Path(Path(%r, mode=''), mode=%r)  # outer call from another directory" % (obs["given"], m),
+                "retype": "path_type(%r)(Path(%r, mode=''))  # outer call from another directory" % (m, obs["given"]),
+                }.get(via, "Path(%r, mode=%r)" % (obs["given"], m))
         return {"call": "%s  # cwd=%s uid=%s kind=%s" % (call, obs["cwd"], case["uid"], case["kind"]),
                 "probed_facts": obs["facts"], "observed": obs["obs"]}
+    if "tops" in case:
+        return {"entry": case["entry"], "process_cwd": "/B/" + case["start"], "config_files_in_order": case["tops"],
+                "symlinks_to_files": case.get("file_links", []),
+                "observed": {k: v for k, v in obs.items() if k not in ("files", "dirs")}}
     return {"entry": case["entry"], "process_cwd": "/B/" + case["start"], "top": case["top"], "tree": case["tree"],
             "symlinks_to_files": case.get("file_links", []),
             "observed": {k: v for k, v in obs.items() if k not in ("files", "dirs")}}
@@ -477,6 +604,8 @@ def describe(case, obs):
 def shrink(case):
     if case["k"] == "mode":
         m = case["mode"]
+        if case.get("via") in ("repath", "retype"):
+            yield dict(case, via="path" if case["via"] == "repath" else "type")
         for i in range(len(m)):
             yield dict(case, mode=m[:i] + m[i + 1:])
         if case["spell"] != "abs":
@@ -491,9 +620,18 @@ def shrink(case):
                     yield ns[:i] + [dict(n, body=b)] + ns[i + 1:]
             # a YAML-loadable list file keeps >= 2 lines (ASSUMPTIONS: a single line takes another code path)
             keep = 2 if n["t"] == "listfile" and not n["items"][0].startswith("@") else 1
-            if n["t"] in ("inlist", "listfile", "seqfile") and len(n["items"]) > keep:
+            if n["t"] in ("inlist", "listfile", "seqfile", "dctfile", "dctinline", "many") and len(n["items"]) > keep:
                 yield ns[:i] + [dict(n, items=n["items"][:keep])] + ns[i + 1:]
 
+    if "tops" in case:
+        tops = case["tops"]
+        if len(tops) > 1:
+            for i in range(len(tops)):
+                yield dict(case, tops=tops[:i] + tops[i + 1:])
+        for i, t in enumerate(tops):
+            for b in variants(t["tree"]):
+                yield dict(case, tops=tops[:i] + [dict(t, tree=b)] + tops[i + 1:])
+        return
     for t in variants(case["tree"]):
         yield dict(case, tree=t)
 
@@ -520,7 +658,7 @@ def extra_coverage(tier):
     cov = {"theorem_space": "C19_mode_exact(_any_repairs): all mode strings (2304 valid local flag records x 70 consistent "
                             "fact records x 8 combinations of repairs, evaluated completely by vm_compute); C19_cwd_restored / C19_relative_follows_config: all "
                             "config trees of any depth over all file sets, all tables of symbolic links and all answers of os.chdir "
-                            "(structural induction)"}
+                            "(structural induction); C19_cfg_sequence_* / C19_default_files_*: all sequences of such trees"}
     if not CAN_DROP:
         cov["unexplored"] = ("not started as root: cannot drop to uid nobody, so all permission-bit rows were run as the "
                              "invoking user only")
@@ -550,7 +688,16 @@ META = {
                   "every combination of landed repairs; outside the guard are two listed classes (relative spelling of a "
                   "YAML-loadable list file - repaired; '..' after a symbolic link in the spelling of a config file - "
                   "C19_chdir_lexical_dotdot_refuted, open), and C19_relative_follows_config_repaired is the unguarded "
-                  "statement for the repaired code. Models tied to the implementation by ~33k real Path() / path_type() "
+                  "statement for the repaired code. Round 6: SEQUENCES of config files of any length - --cfg f1 --cfg f2 ... "
+                  "(run_cfgs) and get_defaults over several default_config_files (run_defaults: glob drops missing names, "
+                  "all Path objects are built before the first load, blank files are skipped, undecodable ones fail before "
+                  "any directory is entered): C19_cfg_sequence_follows_config / C19_default_files_follow_config (induction "
+                  "over the sequence, the step being the single-file theorem, applicable because the state is restored): "
+                  "every file is found from the working directory of the call, each relative path resolves against the "
+                  "directory of the file that mentions it, later files override key by key, the state is restored; "
+                  "C19_cfg_sequence_restores / C19_default_files_restore under the weaker enterability proviso; "
+                  "..._repaired without any guard. C19_nul_rejected: a spelling with a NUL character is answered with "
+                  "PathError for every valid mode. Models tied to the implementation by ~15k (thorough ~220k) real Path() / path_type() "
                   "calls per quick run (as uid nobody, so the permission bits count, next to an independent "
                   "os.stat/os.access probe) and real nested config files with symlinked directories loaded through six "
                   "entry points, every case judged inside Coq.",
@@ -559,9 +706,12 @@ META = {
                   "resolution as re-implemented in Gallina, and the classification of a probed path into the 8-field fact record. Trusted: Coq kernel/VM; "
                   "the fixture, probe and Gallina printer; os.stat/os.access/os.chdir. Outside the statement: URL/fsspec "
                   "modes (u, s), '~user', file:// prefixes, path VALUES that are themselves symbolic links, concurrent chdir by other "
-                  "threads, single-line list files. No axioms.",
+                  "threads, single-line list files, wildcard default_config_files, a dangling symbolic link among the default "
+                  "config files. Which values survive a merge of several files is taken from merge_config (later wins per "
+                  "key); where they were resolved is C19's. No axioms.",
     "technique": "Rocq: kernel-evaluated finite product (forallb ... = true by vm_compute, lifted with forallb_forall to all "
                  "mode strings and all combinations of repairs) + structural (nested) induction over config trees with a "
-                 "bracket lemma for change_to_path_dir; fail-closed translator for the mode tables; correspondence on a "
+                 "bracket lemma for change_to_path_dir + induction over sequences of config files (restoration of the process state "
+                 "as the invariant); fail-closed translator for the mode tables; correspondence on a "
                  "permission-aware file-system fixture judged inside Coq",
 }
